@@ -37,6 +37,16 @@ class Model:
         # dbs[db][schema] = {"tables": {name: table}, "views": {name: view}}
         self.dbs: dict[str, dict[str, dict[str, dict[str, Any]]]] = {}
         self.sessions: dict[str, dict[str, Any]] = {}
+        self.detached: dict[str, Any] = {}  # db_path: databases on disk that the current instance has not attached
+
+    def restart(self) -> None:
+        """A later instance on the same db_path: sessions are gone, databases are files until attached again."""
+        for s in self.sessions.values():
+            if s.get("txn") is not None:
+                s["txn"] = None
+        self.sessions = {}
+        self.detached.update(self.dbs)
+        self.dbs = {}
 
     def copy(self) -> "Model":
         return copy.deepcopy(self)
@@ -100,7 +110,7 @@ class Model:
     def connect(self, sid: str, database: str | None, schema: str | None) -> dict[str, Any]:
         d, s = up(database), up(schema)
         if d and self.create_db and d not in self.dbs:
-            self.dbs[d] = {}
+            self.dbs[d] = self.detached.pop(d, {})
         if d and s and self.create_schema and d in self.dbs and s not in self.dbs[d] and s != "INFORMATION_SCHEMA":
             self.dbs[d][s] = {"tables": {}, "views": {}}
         cur_d = d if d in self.dbs else None
@@ -172,6 +182,23 @@ class Model:
             out.append(v[n.upper()])
         return {"ok": True, "rows": [out], "ordered": True, "rowcount": 1}
 
+    def var(self, sid: str, name: str) -> Any:
+        v = self.sessions[sid]["vars"]
+        if name.upper() not in v:
+            raise Err(E_ANY, f"Session variable '${name.upper()}' does not exist")
+        return v[name.upper()]
+
+    def _select_varpred(self, sid: str, st: dict[str, Any]) -> dict[str, Any]:
+        val = self.var(sid, st["var"])
+        return self._select(sid, {"t": "select", "ref": st["ref"], "cols": st.get("cols"), "where": ["cmp", st["col"], "=", ["lit", val]]})
+
+    def _insert_vars(self, sid: str, st: dict[str, Any]) -> dict[str, Any]:
+        row = [self.var(sid, n) for n in st["vars"]]
+        return self._insert(sid, {"t": "insert", "ref": st["ref"], "rows": [row]})
+
+    def _const(self, sid: str, st: dict[str, Any]) -> dict[str, Any]:
+        return {"ok": True, "rows": st["rows"], "ordered": True, "rowcount": len(st["rows"])}
+
     def _raw_fail(self, sid: str, st: dict[str, Any]) -> dict[str, Any]:
         """A statement the generator built to fail for the stated reason; the model only knows the class."""
         if st.get("needs_ctx"):
@@ -188,7 +215,7 @@ class Model:
             if not st.get("ine"):
                 raise Err(E_MISSING, "database exists")
         else:
-            self.dbs[n] = {}  # type: ignore[index]
+            self.dbs[n] = self.detached.pop(n, {})  # type: ignore[index, arg-type]
         return self.status(f"Database {n} successfully created.")
 
     def _drop_db(self, sid: str, st: dict[str, Any]) -> dict[str, Any]:
